@@ -69,7 +69,7 @@ var dsWeights = []float64{1, 2, 5, inf}
 // dsAlphabet returns the operation alphabet: Step, Step+MoveTo(Here) (null
 // heuristic only, see NOTES.md), every single edge-cost change, and twelve
 // batches of two changes (remove one edge, set another to 1).
-func dsAlphabet(withMove bool, weights []float64) []dsOp {
+func dsAlphabet(withMove bool, weights []float64, batches bool) []dsOp {
 	ops := []dsOp{{kind: 0}}
 	if withMove {
 		ops = append(ops, dsOp{kind: 1})
@@ -81,6 +81,9 @@ func dsAlphabet(withMove bool, weights []float64) []dsOp {
 		}
 	}
 	for i, p := range ps {
+		if !batches {
+			break
+		}
 		q := ps[(i+5)%len(ps)]
 		ops = append(ops, dsOp{kind: 2, changes: []change{{p[0], p[1], inf}, {q[0], q[1], 1}}})
 	}
@@ -319,16 +322,16 @@ func genDStar(g *vlib.G) {
 		}
 	}
 	if thorough {
-		// depth 4 with the full alphabet on four worlds, depth 5 with the
-		// cost alphabet {1, +Inf} on two.
-		for w := 0; w < 4; w++ {
+		// depth 4 with the full alphabet on three worlds, depth 5 with the
+		// cost alphabet {1, +Inf} and no batches on two.
+		for w := 0; w < 3; w++ {
 			cfgs = append(cfgs, cfg{w, w % 2, (w + 1) % 3, 4, dsWeights})
 		}
 		cfgs = append(cfgs, cfg{1, 0, 2, 5, []float64{1, inf}}, cfg{0, 1, 1, 5, []float64{1, inf}})
 	}
 	for _, cf := range cfgs {
 		cf := cf
-		alpha := dsAlphabet(cf.heur == 0, cf.weights)
+		alpha := dsAlphabet(cf.heur == 0, cf.weights, cf.depth < 5)
 		w := &dsWorlds[cf.world]
 		ids := idMap(cf.idk, dsN)
 		e := &dsEnv{w: w, ids: ids, idx: map[int64]int{}, pos: rank(ids, cf.world%3), heur: cf.heur, fresh: true}
